@@ -141,8 +141,9 @@ SPECS = [
                             "scenario_counter_near_wrap", "scenario_instant_grid"] + FAMILY_CLASSES,
                 "counters": {"connection_events_completed": 20000, "scenarios": 1000}},
          assumptions=COMMON_ASSUMPTIONS + [
-             "boundaries left open by the statement are accepted either way: instant = counter+1 (applied at the instant or terminated "
-             "with 0x28) and (instant-counter) mod 65536 = 32767 (Core: past; applying at the instant also satisfies the statement)",
+             "boundaries left open by the statement are accepted either way: instant = counter+1 FOR CONNECTION UPDATES ONLY (the next event is "
+             "already planned with the old timing: applied at the instant or terminated with 0x28; channel map and PHY updates must be "
+             "applied) and (instant-counter) mod 65536 = 32767 (Core: past; applying at the instant also satisfies the statement)",
              "'never stops processing longer than until its instant' is judged as bounded progress: 3 attended connection events after "
              "the instant; scenarios in which the (separate, reported) receive/transmit ring deadlock of the data path occurs are not "
              "judged for that clause",
